@@ -41,3 +41,164 @@ pub fn merge_fragments(
 pub fn default_key_map() -> std::collections::HashMap<tuikit::key::Key, ActionChain> {
     crate::input::verif_default_key_map()
 }
+
+/// Named schedule points and an ordered trace of shared-memory steps.
+///
+/// `point(name)` is called (single added lines, feature-gated) at the places where threads read or
+/// write shared state.  With no rules installed it only counts and records.  A harness installs rules
+/// to steer the schedule: "when a thread arrives at point A, hold it until point B has been passed"
+/// (always with a timeout, so a rule can delay but never deadlock the program).
+pub mod sched {
+    use std::collections::HashMap;
+    use std::sync::{Condvar, Mutex};
+    use std::time::{Duration, Instant};
+
+    #[derive(Clone, Debug)]
+    pub enum Wait {
+        /// hold until `b` is passed once more (counted from the moment of arrival)
+        Next(String),
+        /// hold until count(b) >= count(c)
+        CatchUp(String, String),
+        /// just sleep
+        Sleep,
+    }
+
+    #[derive(Clone, Debug)]
+    pub struct Rule {
+        pub at: String,
+        /// only the n-th arrival (1-based); 0 = every arrival
+        pub nth: u64,
+        pub wait: Wait,
+        pub timeout_ms: u64,
+    }
+
+    #[derive(Default)]
+    struct State {
+        counts: HashMap<String, u64>,
+        rules: Vec<Rule>,
+        trace: Vec<String>,
+        tracing: bool,
+        timeouts: u64,
+    }
+
+    lazy_static! {
+        static ref STATE: Mutex<State> = Mutex::new(State::default());
+        static ref CV: Condvar = Condvar::new();
+    }
+
+    pub fn reset() {
+        let mut s = STATE.lock().unwrap();
+        *s = State::default();
+        CV.notify_all();
+    }
+
+    pub fn set_tracing(on: bool) {
+        STATE.lock().unwrap().tracing = on;
+    }
+
+    pub fn add_rule(rule: Rule) {
+        STATE.lock().unwrap().rules.push(rule);
+    }
+
+    /// "at=<point>[#n];next=<point>|catchup=<b>,<c>|sleep;timeout=<ms>"
+    pub fn add_rule_str(spec: &str) -> bool {
+        let mut at = String::new();
+        let mut nth = 0;
+        let mut wait = None;
+        let mut timeout_ms = 300;
+        for part in spec.split(';') {
+            let mut kv = part.splitn(2, '=');
+            let k = kv.next().unwrap_or("");
+            let v = kv.next().unwrap_or("");
+            match k {
+                "at" => {
+                    let mut it = v.splitn(2, '#');
+                    at = it.next().unwrap_or("").to_string();
+                    nth = it.next().and_then(|n| n.parse().ok()).unwrap_or(0);
+                }
+                "next" => wait = Some(Wait::Next(v.to_string())),
+                "catchup" => {
+                    let mut it = v.splitn(2, ',');
+                    let b = it.next().unwrap_or("").to_string();
+                    let c = it.next().unwrap_or("").to_string();
+                    wait = Some(Wait::CatchUp(b, c));
+                }
+                "sleep" => wait = Some(Wait::Sleep),
+                "timeout" => timeout_ms = v.parse().unwrap_or(300),
+                _ => return false,
+            }
+        }
+        match wait {
+            Some(wait) if !at.is_empty() => {
+                add_rule(Rule { at, nth, wait, timeout_ms });
+                true
+            }
+            _ => false,
+        }
+    }
+
+    pub fn count(name: &str) -> u64 {
+        *STATE.lock().unwrap().counts.get(name).unwrap_or(&0)
+    }
+
+    pub fn timeouts() -> u64 {
+        STATE.lock().unwrap().timeouts
+    }
+
+    pub fn take_trace() -> Vec<String> {
+        std::mem::take(&mut STATE.lock().unwrap().trace)
+    }
+
+    /// record a label (with observed values) without being a schedule point
+    pub fn log(label: String) {
+        let mut s = STATE.lock().unwrap();
+        if s.tracing {
+            s.trace.push(label);
+        }
+    }
+
+    pub fn point(name: &str) {
+        let mut s = STATE.lock().unwrap();
+        let n = {
+            let c = s.counts.entry(name.to_string()).or_insert(0);
+            *c += 1;
+            *c
+        };
+        if s.tracing {
+            s.trace.push(name.to_string());
+        }
+        CV.notify_all();
+        let rules: Vec<Rule> = s
+            .rules
+            .iter()
+            .filter(|r| r.at == name && (r.nth == 0 || r.nth == n))
+            .cloned()
+            .collect();
+        for r in rules {
+            let deadline = Instant::now() + Duration::from_millis(r.timeout_ms);
+            let base = match &r.wait {
+                Wait::Next(b) => *s.counts.get(b).unwrap_or(&0),
+                _ => 0,
+            };
+            loop {
+                let ok = match &r.wait {
+                    Wait::Next(b) => *s.counts.get(b).unwrap_or(&0) > base,
+                    Wait::CatchUp(b, c) => s.counts.get(b).unwrap_or(&0) >= s.counts.get(c).unwrap_or(&0),
+                    Wait::Sleep => false,
+                };
+                if ok {
+                    break;
+                }
+                let now = Instant::now();
+                if now >= deadline {
+                    if !matches!(r.wait, Wait::Sleep) {
+                        s.timeouts += 1;
+                    }
+                    break;
+                }
+                let (g, _) = CV.wait_timeout(s, deadline - now).unwrap();
+                s = g;
+            }
+        }
+    }
+}
